@@ -480,3 +480,89 @@ Proof.
   eexists; split; [reflexivity|]. apply Forall_firstn'; auto.
 Qed.
 End Generic.
+
+(* ---------- the NUMA loop and GetCPUPlans ---------- *)
+Lemma mweight_upd_le (c : smap Z) k v : v <= lookup 0 c k -> mweight (upd c k v) <= mweight c.
+Proof.
+  unfold lookup. induction c as [|[k' w] t IH]; simpl; intros H.
+  - lia.
+  - destruct (String.eqb k k'); simpl in *; [lia|]. specialize (IH H). lia.
+Qed.
+
+Lemma mweight_sub_le (c p : smap Z) : plan_nn p -> mweight (cpumap_sub c p) <= mweight c.
+Proof.
+  unfold cpumap_sub. intros H. revert c.
+  induction H as [|kv t Hx Ht IH]; intros c; simpl; [lia|].
+  etransitivity; [apply IH|]. apply mweight_upd_le. lia.
+Qed.
+
+Lemma mweight_numa_map numa avail nid : mweight (numa_cpu_map numa avail nid) <= nweight numa avail.
+Proof.
+  unfold numa_cpu_map, nweight. induction numa as [|kv t IH]; simpl; [lia|].
+  destruct (String.eqb (snd kv) nid); simpl; lia.
+Qed.
+
+Lemma nweight_nonneg numa avail : 0 <= nweight numa avail.
+Proof. unfold nweight. induction numa; simpl; lia. Qed.
+
+Lemma sub_plans_weight (plans : list plan) nid mem : plans_nn plans -> forall a,
+  mweight (nr_cpumap (fold_left (fun a p => nr_sub_nofloat a (mkNR f_zero p mem [(nid, mem)] [])) plans a))
+  <= mweight (nr_cpumap a).
+Proof.
+  intros H. induction H as [|p t Hp Ht IH]; intros a; simpl; [lia|].
+  etransitivity; [apply IH|]. simpl. apply mweight_sub_le; auto.
+Qed.
+
+Section Generic2.
+Variable sortf : list keyed -> outcome (list keyed).
+Hypothesis sortf_perm : forall l, exists l', sortf l = Ok l' /\ Permutation l' l.
+
+Lemma numa_loop_ok numa avail0 origin base mf cpu mem fuel : 0 < base ->
+  nweight numa avail0 < Z.of_nat fuel ->
+  forall order avail acc, Forall (fun tp => plan_nn (snd tp)) acc ->
+  exists avail' acc', numa_loop sortf order numa avail0 origin base mf cpu mem fuel avail acc = Ok (avail', acc')
+     /\ Forall (fun tp => plan_nn (snd tp)) acc'
+     /\ mweight (nr_cpumap avail') <= mweight (nr_cpumap avail).
+Proof.
+  intros Hb Hw. induction order as [|nid rest IH]; intros avail acc Ha; simpl.
+  - do 2 eexists; split; [reflexivity|]. split; auto. lia.
+  - destruct (do_get_cpu_plans_ok sortf sortf_perm origin (numa_cpu_map numa avail0 nid)
+                (Z.min (lookup 0 (nr_numamem avail) nid) (nr_mem avail)) base mf cpu mem fuel Hb)
+      as (plans & E & Np).
+    { pose proof (mweight_numa_map numa avail0 nid). lia. }
+    rewrite E. cbn [bind].
+    match goal with |- context [numa_loop sortf rest numa avail0 origin base mf cpu mem fuel ?a ?c] =>
+      destruct (IH a c) as (avail' & acc' & E' & N' & W') end.
+    { apply Forall_app; split; auto. apply Forall_forall. intros tp Hin.
+      apply in_map_iff in Hin. destruct Hin as (p & <- & Hp). simpl.
+      unfold plans_nn in Np. rewrite Forall_forall in Np. auto. }
+    do 2 eexists; split; [exact E'|]. split; auto.
+    etransitivity; [exact W'|]. apply sub_plans_weight; auto.
+Qed.
+
+(* GetCPUPlans never panics and terminates within the default fuel *)
+Theorem get_cpu_plans_total info origin base mf req order fuel :
+  0 < base -> (default_fuel info <= fuel)%nat ->
+  exists plans, get_cpu_plans_g sortf info origin base mf req order fuel = Ok plans
+                /\ Forall (fun tp => plan_nn (snd tp)) plans.
+Proof.
+  intros Hb Hf. unfold get_cpu_plans_g. unfold default_fuel in Hf.
+  set (avail := get_available_nofloat info) in *.
+  pose proof (mweight_nonneg (nr_cpumap avail)) as M0.
+  pose proof (nweight_nonneg (nr_numa (ni_cap info)) (nr_cpumap avail)) as N0.
+  destruct (numa_loop_ok (nr_numa (ni_cap info)) (nr_cpumap avail) origin base mf
+              (rq_cpu_req req) (rq_mem_req req) fuel Hb ltac:(lia) order avail [] ltac:(constructor))
+    as (avail' & acc & E & Na & Wa).
+  rewrite E. cbn [bind].
+  destruct (do_get_cpu_plans_ok sortf sortf_perm origin (nr_cpumap avail') (nr_mem avail') base mf
+              (rq_cpu_req req) (rq_mem_req req) fuel Hb ltac:(lia)) as (cross & Ec & Nc).
+  rewrite Ec. cbn [bind]. eexists; split; [reflexivity|].
+  apply Forall_app; split; auto. apply Forall_forall. intros tp Hin.
+  apply in_map_iff in Hin. destruct Hin as (p & <- & Hp). simpl.
+  unfold plans_nn in Nc. rewrite Forall_forall in Nc. auto.
+Qed.
+End Generic2.
+
+(* the concrete instance: stable insertion sort *)
+Lemma sort_exact_perm : forall l, exists l', sort_exact l = Ok l' /\ Permutation l' l.
+Proof. intros l. eexists; split; [reflexivity|]. apply isort_perm. Qed.
